@@ -1,6 +1,7 @@
 \* thorough: every header position 0..1019 x 4 file kinds
 CONSTANTS
   Headers = 0..1019
+  Tails = {"plain", "%", "%P", "%PD", "%PDF"}
   Kinds = {"classic", "xrefstm", "prev2", "objstm"}
   Consumers = {"startxref", "prev", "entry", "streamdata", "scan"}
   Dev = {}
